@@ -3,11 +3,13 @@ package props
 import (
 	"encoding/json"
 	"fmt"
+	"github.com/aml-org/amf-custom-validator/internal/validator"
 	yaml3 "gopkg.in/yaml.v3"
 	"math/rand"
 	"os"
 	"sort"
 	"strings"
+	"sync"
 	"time"
 
 	"github.com/aml-org/amf-custom-validator/pkg"
@@ -104,6 +106,21 @@ func (f FForm) Expr() map[string]any {
 		return map[string]any{"propertyConstraints": map[string]any{f.Path.Canon(): c}}
 	case "rego":
 		return map[string]any{"rego": f.Q}
+	case "pc":
+		// several atoms / quantified constraints in ONE propertyConstraints mapping (same or different property keys)
+		merged := map[string]any{}
+		for _, k := range f.Kids {
+			for path, cs := range k.Expr()["propertyConstraints"].(map[string]any) {
+				if cur, ok := merged[path].(map[string]any); ok {
+					for ck, cv := range cs.(map[string]any) {
+						cur[ck] = cv
+					}
+				} else {
+					merged[path] = cs
+				}
+			}
+		}
+		return map[string]any{"propertyConstraints": merged}
 	case "and", "or":
 		l := []any{}
 		for _, k := range f.Kids {
@@ -137,6 +154,12 @@ func (f FForm) Sx() sx.V {
 			n = sx.L(sx.A(f.Q), sx.I(f.K), p, f.Kids[0].Sx())
 		}
 		return sx.L(sx.A("and"), n)
+	case "pc":
+		items := []sx.V{sx.A("and")}
+		for _, k := range f.Kids {
+			items = append(items, k.Sx().List[1:]...)
+		}
+		return sx.L(items...)
 	case "and", "or":
 		items := []sx.V{sx.A(f.Kind)}
 		for _, k := range f.Kids {
@@ -199,7 +222,7 @@ func (f FForm) dnfSize(neg bool) int {
 			return capm(f.Kids[0].dnfSize(false))
 		}
 		return 1
-	case "and":
+	case "and", "pc":
 		if neg {
 			return prod(f.Kids, true)
 		}
@@ -230,6 +253,7 @@ func (f FForm) dnfSize(neg bool) int {
 
 func fAtom(a FAtom) FForm         { return FForm{Kind: "atom", Atom: &a} }
 func fNot(f FForm) FForm          { return FForm{Kind: "not", Kids: []FForm{f}} }
+func fPC(l ...FForm) FForm        { return FForm{Kind: "pc", Kids: l} }
 func fAnd(l ...FForm) FForm       { return FForm{Kind: "and", Kids: l} }
 func fOr(l ...FForm) FForm        { return FForm{Kind: "or", Kids: l} }
 func fIf(i, t FForm) FForm        { return FForm{Kind: "if", Kids: []FForm{i, t}} }
@@ -509,8 +533,8 @@ func truthGraph(k int) Graph {
 func C01(e *core.Env) {
 	res := e.Res
 	res.Rule = "cases = (formula, graph); every target node of the graph is a truth assignment / value configuration and its verdict is compared with the extracted model (parser + failure DNF + atom snippets) and with the classical semantics; " +
-		"streams: skeleton (all formulas with <= 2 (quick) / <= 3 (thorough) connectives over 3 single-valued atoms, count and `in` flavours, x all 8 assignments), quantifier (nested/atLeast/atMost, k=0..3, under not/or/if, nested in each other), " +
-		"atom (every documented constraint kind x value sets of size 0..2 x both polarities), random (depth <= 5 / 7, width <= 4), history (12 random formulas written over the built-in prefix `core` instead of a declared prefix, validated before and after another profile that rebinds core / data / doc / shacl / apiContract / ex was compiled and run); non-trivial = the formula reports at least one target node and spares at least one; distinct by formula text"
+		"streams: skeleton (all formulas with <= 2 (quick) / <= 3 (thorough) connectives over 3 single-valued atoms, count and `in` flavours, x all 8 assignments), quantifier (nested/atLeast/atMost, k=0..3, under not/or/if, nested in each other; several quantified constraints under different keys of ONE propertyConstraints mapping, plain and under not / if), " +
+		"atom (every documented constraint kind x value sets of size 0..2 x both polarities), random (depth <= 5 / 7, width <= 4), while-others-compile (random and quantifier formulas validated in small batches while three goroutines translate another profile), history (12 random formulas written over the built-in prefix `core` instead of a declared prefix, validated before and after another profile that rebinds core / data / doc / shacl / apiContract / ex was compiled and run); non-trivial = the formula reports at least one target node and spares at least one; distinct by formula text"
 
 	// ---- (i) skeleton stream
 	k := 3
@@ -706,6 +730,22 @@ func C01(e *core.Env) {
 				c01case{fNot(fNested("atMost", 1, kidp, fOr(q, cntLeaves[1]))), "quantifier"})
 		}
 	}
+	// several constraints in ONE propertyConstraints mapping (the parser's implicit and): quantified constraints under two
+	// different property keys, atoms next to quantified constraints, two constraints of one key - plain and under negation
+	kidInv := Pr("ex.kid", true)
+	blocks := []FForm{
+		fPC(fNested("all", 0, kidp, cntLeaves[0]), fNested("atLeast", 1, kidInv, inLeaves[0])),
+		fPC(fNested("atMost", 1, kidp, inLeaves[0]), fNested("all", 0, kidInv, cntLeaves[1]), cntLeaves[0]),
+		fPC(fNested("atLeast", 2, kidp, fOr(cntLeaves[0], inLeaves[0])), fNested("atMost", 0, kidInv, fNot(cntLeaves[1]))),
+		fPC(cntLeaves[0], cntLeaves[1], inLeaves[0]),
+		fPC(fNested("all", 0, kidp, fPC(fNested("all", 0, kidp, cntLeaves[0]), fNested("atLeast", 1, kidInv, cntLeaves[1]))), cntLeaves[1]),
+	}
+	for _, b := range blocks {
+		qcases = append(qcases, c01case{b, "constraint-block"}, c01case{fNot(b), "constraint-block"},
+			c01case{fIf(b, cntLeaves[1]), "constraint-block"}, c01case{fIfElse(b, inLeaves[0], cntLeaves[1]), "constraint-block"},
+			c01case{fOr(fNot(b), cntLeaves[1]), "constraint-block"}, c01case{fNot(fAnd(b, cntLeaves[1])), "constraint-block"},
+			c01case{fNested("all", 0, kidp, fNot(b)), "constraint-block"})
+	}
 	// many quantified variables in one validation: k sibling nested constraints, then nested-in-nested
 	// (every variable of the alphabet gets to be the one of the enclosing nested constraint)
 	manySiblings := []c01case{}
@@ -817,6 +857,63 @@ func C01(e *core.Env) {
 	res.Sample(map[string]any{"stream": "random", "formula": core.Trunc(rcases[0].f.String(), 600)})
 	runC01(e, tg, rcases, "r", 20)
 	res.Note(fmt.Sprintf("random stream: %d formulas, %.1fs", len(rcases), time.Since(t0).Seconds()))
+
+	// ---- (iv') the same kind of formulas while OTHER profiles are being translated in the same process (the verdict of a
+	// profile must not depend on what else the process compiles at that moment)
+	t0 = time.Now()
+	{
+		stop := make(chan struct{})
+		var nwg sync.WaitGroup
+		noise := ProfileHeader + "violation:\n  - n1\n  - n2\nvalidations:\n  n1:\n    targetClass: ex.T\n    message: n\n    propertyConstraints:\n      ex.a / ex.b:\n        minCount: 1\n      ex.c | ex.d:\n        pattern: ^a\n  n2:\n    targetClass: ex.T\n    message: n\n    propertyConstraints:\n      ex.e:\n        nested:\n          propertyConstraints:\n            ex.f:\n              in: [ a ]\n"
+		for w := 0; w < 3; w++ {
+			nwg.Add(1)
+			go func() {
+				defer nwg.Done()
+				for {
+					select {
+					case <-stop:
+						return
+					default:
+						func() {
+							defer func() { recover() }()
+							validator.GenerateRego(noise, false, nil)
+						}()
+					}
+				}
+			}()
+		}
+		ccases := []c01case{}
+		for i := 0; i < len(rcases) && i < e.Pick(40, 200); i++ {
+			ccases = append(ccases, c01case{rcases[i].f, "random-while-others-compile"})
+		}
+		for i := 0; i < len(qcases) && i < e.Pick(40, 200); i += 3 {
+			ccases = append(ccases, c01case{qcases[i].f, "quantifier-while-others-compile"})
+		}
+		// many small batches: each batch is one translation of its own
+		for start := 0; start < len(ccases); start += 4 {
+			end := start + 4
+			if end > len(ccases) {
+				end = len(ccases)
+			}
+			g := tg
+			if ccases[start].stream == "quantifier-while-others-compile" {
+				g = qg
+			}
+			same := true
+			for _, c := range ccases[start:end] {
+				if c.stream != ccases[start].stream {
+					same = false
+				}
+			}
+			if !same {
+				continue
+			}
+			runC01Batch(e, g, ccases[start:end], fmt.Sprintf("cc%d", start))
+		}
+		close(stop)
+		nwg.Wait()
+	}
+	res.Note(fmt.Sprintf("while-others-compile stream: %.1fs", time.Since(t0).Seconds()))
 
 	// ---- (v) histories: the verdict of a profile that relies on a built-in prefix does not depend on which other
 	// profiles the process compiled before (in particular profiles that bind the same prefix name to something else)
